@@ -94,6 +94,10 @@ func runC10(c *kernel.Ctx) {
 		runC10Wide(c)
 		return
 	}
+	if c.Params["campaign"] != "narrow" && (c.Params["campaign"] == "stall" || t.Chance(1, 10)) {
+		runC10Stall(c)
+		return
+	}
 	c.SleepToEpoch()
 	baton := kernel.NewBaton()
 	baton.NoParkUnder = []string{"websocketTransport).Write"} // that method holds its mutex across the socket write
